@@ -83,6 +83,7 @@ type Facts struct {
 	TickCalls   []string            `json:"tickCalls"`
 	TickConds   []string            `json:"tickConds"`
 	QueueShapes [][4]string         `json:"queueShapes"`
+	StoreOpen   [][3]string         `json:"storeOpen"`
 	Defaults    map[string]string   `json:"defaults"`
 }
 
@@ -389,6 +390,22 @@ func main() {
 		facts.QueueShapes = append(facts.QueueShapes, [4]string{spec[0], spec[2], strings.Join(calls, " "), strings.Join(conds, " ;; ")})
 	}
 
+	// 5f. how the stores open their database: driver name and data source expression of every sql.Open (journal mode, busy
+	// time-out and the like are part of the data source: durability across a kill depends on them)
+	for _, fpath := range []string{"internal/app/subsystems/aio/store/sqlite/sqlite.go", "internal/app/subsystems/aio/store/postgres/postgres.go"} {
+		f := parse(filepath.Join(repo, fpath))
+		if f == nil {
+			continue
+		}
+		ast.Inspect(f, func(n ast.Node) bool {
+			ce, ok := n.(*ast.CallExpr)
+			if ok && src(ce.Fun) == "sql.Open" && len(ce.Args) == 2 {
+				facts.StoreOpen = append(facts.StoreOpen, [3]string{fpath, src(ce.Args[0]), src(ce.Args[1])})
+			}
+			return true
+		})
+	}
+
 	// 6. struct-tag defaults
 	for _, spec := range [][3]string{
 		{"internal/app/subsystems/aio/store/sqlite/sqlite.go", "Config", "sqlite"},
@@ -540,6 +557,14 @@ func main() {
 			sep = ""
 		}
 		fmt.Fprintf(&ss, "  (%s, %s, %s, %s)%s\n", q(a[0]), q(a[1]), q(a[2]), q(a[3]), sep)
+	}
+	ss.WriteString("]\n\n/-- every sql.Open of the two stores: (file, driver, data source expression) -/\ndef storeOpen : List (String × String × String) := [\n")
+	for i, a := range facts.StoreOpen {
+		sep := ","
+		if i == len(facts.StoreOpen)-1 {
+			sep = ""
+		}
+		fmt.Fprintf(&ss, "  (%s, %s, %s)%s\n", q(a[0]), q(a[1]), q(a[2]), sep)
 	}
 	ss.WriteString("]\n\nend Resonate.Gen\n")
 	os.WriteFile(filepath.Join(out, "Sites.lean"), []byte(ss.String()), 0o644)
